@@ -200,9 +200,6 @@ Section WithOracles.
   (* deserialize_single_field followed by the constructor's __set__ *)
   Definition reg_leaf (l : leaf) (v : pyval) : res pyval :=
     match l with
-    | LPrim FNone =>
-        (* deserialize_single_field(NoneField(), v) calls NoneType( *v ) / NoneType( **v ) for a list / dict *)
-        if empty_container v then Ok PNone else vset re_match [] FNone v
     | LPrim f => vset re_match [] f v
     | LEnum cls ms byv =>
         if byv then
